@@ -72,7 +72,7 @@ def value_of(t):
 
 @st.composite
 def case_strategy(draw):
-    nf = draw(st.integers(1, 4))
+    nf = draw(st.sampled_from([0, 1, 1, 2, 2, 3, 4]))  # (a type without fields - marker / heartbeat records - is a type too)
     names = draw(st.lists(gen.ident(5), min_size=nf, max_size=nf, unique=True))
     types = [draw(st.sampled_from(MAPPED)) for _ in names]
     desc = (draw(gen.type_name()), tuple(zip(types, names)))
